@@ -121,7 +121,7 @@ func morePairs() []*pair {
 	for _, c := range []struct {
 		srv, cli int
 		quick    bool
-	}{{2, 1, true}, {2, 2, false}} {
+	}{{1, 1, true}, {2, 1, false}, {2, 2, false}} {
 		cfg := proxy.Config{NumServers: c.srv, NumClients: c.cli, ExploreFail: true, ClientRun: true, PerfectFD: true}
 		out = append(out, &pair{
 			Name: fmt.Sprintf("proxy-checkedin-S%d-C%d", c.srv, c.cli), SpecDir: "systems/proxy", Module: "proxy", Quick: c.quick,
